@@ -139,7 +139,7 @@ class Template:
                     if not partial or block_scope:
                         raise LiquidSyntaxError(
                             f"unexpected '{err}'",
-                            token=node.token,
+                            token=err.token or node.token,
                             template_name=self.full_name(),
                         ) from err
                     raise
@@ -173,7 +173,7 @@ class Template:
                     if not partial or block_scope:
                         raise LiquidSyntaxError(
                             f"unexpected '{err}'",
-                            token=node.token,
+                            token=err.token or node.token,
                             template_name=self.full_name(),
                         ) from err
                     raise
